@@ -256,6 +256,12 @@ func (u *PacketUnderlay) RunEventLoop(ctx context.Context) error {
 				}
 				continue
 			}
+			if !dataAckDirectionMatchesRole(u.isClient, seg.metadata.Protocol()) {
+				// For example a datagram reflected back to its sender. The session
+				// would treat it as a fatal error; on a packet transport it is dropped.
+				log.Debugf("%v dropped a segment for session %d with protocol %v in the wrong direction", u, das.sessionID, seg.metadata.Protocol())
+				continue
+			}
 			if !segmentUserMatchesSession(session.(*Session), seg) {
 				log.Debugf("%v dropped a segment for session %d that was authenticated as a different user", u, das.sessionID)
 				continue
@@ -265,6 +271,15 @@ func (u *PacketUnderlay) RunEventLoop(ctx context.Context) error {
 			log.Debugf("Ignore unknown protocol %d", seg.metadata.Protocol())
 		}
 	}
+}
+
+// dataAckDirectionMatchesRole returns true if a data or ack segment with the
+// protocol can be received by a client (isClient is true) or a server.
+func dataAckDirectionMatchesRole(isClient bool, p protocolType) bool {
+	if isClient {
+		return p == dataServerToClient || p == dataServerToClientLowEntropy || p == ackServerToClient
+	}
+	return p == dataClientToServer || p == dataClientToServerLowEntropy || p == ackClientToServer
 }
 
 // segmentUserMatchesSession returns false if the segment was authenticated with
